@@ -10,6 +10,7 @@ import (
 	"math"
 	"math/rand"
 	"strconv"
+	"sync"
 	"time"
 
 	. "github.com/pbenner/autodiff"
@@ -115,18 +116,56 @@ func normInf(a [][]float64) float64 {
 
 func record(args []string) {
 	if len(args) < 2 {
-		vh.Fatal("usage: linalg record trace ncases")
+		vh.Fatal("usage: linalg record trace ncases [goroutines]")
 	}
 	ncases, _ := strconv.Atoi(args[1])
+	workers := 1
+	if len(args) > 2 {
+		workers, _ = strconv.Atoi(args[2])
+	}
 	seed := int64(vh.EnvInt("VERIF_SEED", 1))
 	out := vh.NewOut(args[0])
 	defer out.Close()
-	wd := vh.NewWatchdog(30*time.Second, out, vh.M{"engine": "linalg", "op": "record", "type": "any", "opts": "any"})
-	rng := rand.New(rand.NewSource(seed*7919 + 13))
-	for q := 0; q < ncases; q++ {
+	wd := vh.NewWatchdog(60*time.Second, out, vh.M{"engine": "linalg", "op": "record", "type": "any", "opts": "any"})
+	if workers <= 1 {
+		rng := rand.New(rand.NewSource(seed*7919 + 13))
+		for q := 0; q < ncases; q++ {
+			ev := oneCall(rng, false)
+			out.Put(ev)
+		}
+		return
+	}
+	// Re-entrancy probe: the same calls from several goroutines at the same
+	// time, every goroutine on its own inputs.  The property's equations hold
+	// for every call, whatever else the process is doing; a routine that keeps
+	// state between calls shows up as a wrong result (rejected by the trace
+	// specification) or as a report of the race detector (-race build).
+	wd.Begin(vh.M{"concurrent": workers, "ncases": ncases})
+	var wg sync.WaitGroup
+	start := make(chan struct{})
+	for w := 0; w < workers; w++ {
+		wg.Add(1)
+		go func(w int) {
+			defer wg.Done()
+			rng := rand.New(rand.NewSource(seed*7919 + 13 + int64(w)*104729))
+			<-start
+			for q := 0; q < ncases; q++ {
+				out.Put(oneCall(rng, true))
+			}
+		}(w)
+	}
+	close(start)
+	wg.Wait()
+	wd.End()
+}
+
+// one recorded call on a fresh random input; f64only restricts to the
+// DenseFloat64 (hand-specialised) paths
+func oneCall(rng *rand.Rand, f64only bool) event {
+	{
 		n := 5 + rng.Intn(4)
 		ti := allTypes[0]
-		if rng.Intn(2) == 1 {
+		if rng.Intn(2) == 1 && !f64only {
 			ti = allTypes[2]
 		}
 		ev := event{Ty: ti.name, N: n, Perm: []int{}, B: []int64{}}
@@ -158,7 +197,6 @@ func record(args []string) {
 		for i := range b {
 			b[i] = int64(rng.Intn(9) - 4)
 		}
-		wd.Begin(ev)
 		switch {
 		case ev.Cls == "triangular":
 			ev.E = "backsub"
@@ -223,8 +261,7 @@ func record(args []string) {
 				ev.Resid = ev.Shape && ev.Finite && residV(af, xs, b) && residM(af, xm)
 			}
 		}
-		wd.End()
-		out.Put(ev)
+		return ev
 	}
 }
 
